@@ -142,8 +142,13 @@ def join_blocks(
     module = block1.module
     assert ir and module and block2.section
 
+    # If block1 is empty it takes over block2's extent, so references to the
+    # end of block2 must stay at the end.
     cache.reference_cache.retarget_references(
-        block2, block1, bool(block1.size)
+        block2,
+        block1,
+        bool(block1.size),
+        keep_end_references=not block1.size,
     )
 
     if isinstance(block2, gtirb.CodeBlock):
